@@ -477,6 +477,10 @@ template <class G> struct Exec {
   // manif::average() does not compile for groups with DoF == 1 on the pinned tree
   static void avg_plain(St& st, const OpRec& op, Out& out, std::true_type) {
     if (op.variant & V_ALT) { std::vector<G, Eigen::aligned_allocator<G> > none; put_e(out, manif::average(none)); }
+    else if ((op.variant & V_SUB) && !st.vec.empty()) {
+      std::vector<G, Eigen::aligned_allocator<G> > sub(st.vec.begin(), st.vec.begin() + 1 + op.c % st.vec.size());
+      put_e(out, manif::average(sub));
+    }
     else put_e(out, manif::average(st.vec));
   }
   static void avg_plain(St&, const OpRec&, Out& out, std::false_type) { out.status = 9; }
@@ -496,6 +500,13 @@ template <class G> struct Exec {
           if (op.op == OP_AVG_BIINV) put_e(out, manif::average_biinvariant(none));
           else if (op.op == OP_AVG_FL) put_e(out, manif::average_frechet_left(none));
           else put_e(out, manif::average_frechet_right(none));
+          break;
+        }
+        if ((op.variant & V_SUB) && !st.vec.empty()) {   // a leading part of the shared container (another container size)
+          std::vector<G, Eigen::aligned_allocator<G> > sub(st.vec.begin(), st.vec.begin() + 1 + op.c % st.vec.size());
+          if (op.op == OP_AVG_BIINV) put_e(out, manif::average_biinvariant(sub));
+          else if (op.op == OP_AVG_FL) put_e(out, manif::average_frechet_left(sub));
+          else put_e(out, manif::average_frechet_right(sub));
           break;
         }
         if (op.op == OP_AVG_BIINV) put_e(out, manif::average_biinvariant(st.vec));
